@@ -541,18 +541,30 @@ def run_words(task):
                     stencil = [[1, 0, 1], [1, 1, -1], [2, -1, 1], [3, 2, 2]]
                     cands = [np.array([row[:d] for row in stencil], dtype=np.int64), np.array([[4, 1, 1][:d], [5, 2, -2][:d], [6, -3, 1][:d]], dtype=np.int64)]
                 s, ex = (shared, None) if (reuse and shared is not None) else _try_new(e, kw)
-                ref, Pint = None, None
-                for cnd in cands if ex is None else ():
-                    try:
-                        with contextlib.redirect_stdout(io.StringIO()):
-                            r_ = s(cat.native(e, cnd.astype(float)), e["t"])
-                        ok_ = len(r_) == len(cnd) and all(np.all(np.isfinite(np.asarray(r_[n], float))) for n in r_.dtype.names
-                                                          if np.asarray(r_[n]).dtype.kind in "fiu")
-                    except Exception:
-                        ok_ = False
-                    if ok_:
-                        ref, Pint = r_, cnd
+                ref, Pint, tint = None, None, e["t"]
+                # times: the word's own, then 10 x and 100 x later (a wave that has not reached the whole-number positions yet leaves
+                # every field at its undisturbed value, which an integer array represents exactly); first non-trivial finite answer wins
+                tcands = [e["t"]] + ([10.0 * e["t"], 100.0 * e["t"]] if e["t"] else [])
+                fallback = None
+                for tt in tcands if ex is None else ():
+                    for cnd in cands:
+                        try:
+                            with contextlib.redirect_stdout(io.StringIO()):
+                                r_ = s(cat.native(e, cnd.astype(float)), tt)
+                            num = [np.asarray(r_[n], float) for n in r_.dtype.names[d:] if np.asarray(r_[n]).dtype.kind in "fiu"]
+                            ok_ = len(r_) == len(cnd) and all(np.all(np.isfinite(c_)) for c_ in num)
+                            nontriv = ok_ and any(np.any((c_ != 0) & (c_ != np.round(c_))) for c_ in num)
+                        except Exception:
+                            ok_ = nontriv = False
+                        if ok_ and fallback is None:
+                            fallback = (r_, cnd, tt)
+                        if nontriv:
+                            ref, Pint, tint = r_, cnd, tt
+                            break
+                    if ref is not None:
                         break
+                if ref is None and fallback is not None:
+                    ref, Pint, tint = fallback
                 words = ()
                 if ref is not None:
                     nat = cat.native(e, Pint)
@@ -563,7 +575,7 @@ def run_words(task):
                     res["evals"] += 1
                     try:
                         with contextlib.redirect_stdout(io.StringIO()):
-                            sol = s(xi, e["t"])
+                            sol = s(xi, tint)
                     except Exception as ex2:
                         cx.dg.add("intexc", cont, type(ex2).__name__)
                         cx.viol("call:raises:" + type(ex2).__name__, {"container": cont}, detail={"message": str(ex2)[:200], "points": Pint.tolist()})
